@@ -179,7 +179,7 @@ func (in *instr) rewriteSelect(c *astutil.Cursor, n *ast.SelectStmt, outer ast.S
 // in the non-test files of the packages being instrumented. The instrumenter has no
 // type information; a range statement over an expression that ends in one of these
 // names is taken to be a range over a channel.
-var chanNames, chanFuncs = map[string]bool{}, map[string]bool{}
+var chanNames, chanFuncs = map[string]bool{"C": true /* time.Timer.C, time.Ticker.C */}, map[string]bool{"After": true, "Tick": true}
 
 func collectChans(dir string) {
 	ents, err := os.ReadDir(dir)
@@ -381,6 +381,12 @@ func (in *instr) pre(c *astutil.Cursor) bool {
 			}
 		case *ast.SelectorExpr:
 			// time.AfterFunc(d, f): the callback must run in a goroutine the explorer knows.
+			if id, ok := f.X.(*ast.Ident); ok && id.Name == "time" && f.Sel.Name == "Sleep" && len(x.Args) == 1 {
+				// A sleeping goroutine must park again when it wakes (one runs at a time).
+				x.Fun = sel("vsched", "Sleep")
+				in.stats["sleep"]++
+				return true
+			}
 			if id, ok := f.X.(*ast.Ident); ok && id.Name == "time" && f.Sel.Name == "AfterFunc" && len(x.Args) == 2 {
 				lb := in.label(x)
 				x.Fun = sel("vsched", "AfterFunc")
